@@ -92,6 +92,11 @@ fn build_one(ty: &str, v: &Option<DataValue>) -> ArrayImpl {
 
 fn same(a: &DataValue, b: &DataValue) -> bool {
     match (a, b) {
+        // (Miri perturbs the results of inexact float intrinsics by a few ulp on purpose, differently on every
+        // call: under the interpreter floats are compared with a tolerance)
+        (DataValue::Float64(x), DataValue::Float64(y)) if cfg!(miri) => {
+            x.0.to_bits() == y.0.to_bits() || (x.0.is_nan() && y.0.is_nan()) || (x.0 - y.0).abs() <= 1e-9 * x.0.abs().max(y.0.abs()).max(1.0)
+        }
         (DataValue::Float64(x), DataValue::Float64(y)) => x.0.to_bits() == y.0.to_bits() || (x.0.is_nan() && y.0.is_nan()),
         (DataValue::Decimal(x), DataValue::Decimal(y)) => x == y && x.scale() == y.scale(),
         _ => a == b,
@@ -163,8 +168,9 @@ impl Kernel {
 
 /// error class: errors that name a value differ between batch and row; keep the kind only
 fn class(e: &str) -> String {
+    // the kind of the failure: the letters of its message up to the first value it names
     let e = e.split(|c: char| c.is_ascii_digit() || c == '\'' || c == '"').next().unwrap_or(e);
-    e.trim().chars().take(40).collect()
+    e.chars().filter(|c| c.is_ascii_alphabetic()).take(40).collect()
 }
 
 struct Case {
@@ -214,6 +220,8 @@ fn gen_case(rng: &mut Rng) -> Case {
             let to = ty(rng);
             (Kernel::Cast(dtype(to), to), vec![ty(rng)])
         }
+        // (regex compilation takes minutes under the Miri interpreter: LIKE is left to the native runs)
+        14 if cfg!(miri) => (Kernel::Unary(UnaryOperator::Not, "not"), vec!["bool"]),
         14 => (Kernel::Like(rng.pick(&["a%", "%b", "%", "a_", "_", "", "%a%", "a.c", "1%", "%é"]).to_string()), vec!["string"]),
         15 => (Kernel::Extract(*rng.pick(&["year", "month", "day"])), vec!["date"]),
         16 => (Kernel::Substring, vec!["string", "int32", "int32"]),
